@@ -8,6 +8,7 @@ import engine, specparse
 # thorough: capacity <= 3 from the unreduced pre-state.
 QUICK = dict(caps=[3], sym=True)
 THOROUGH = dict(caps=[3], sym=False)
+LIGHT = ('lru_cache', 'mru_cache', 'rr_cache', 'fifo_cache', 'lfu_cache', 'ut_map', 'ut_set')
 LOCK_PROPS = ('C06', 'C07')
 
 
@@ -18,11 +19,14 @@ def case_list(fs, tier='thorough'):
     a = [None] if not split else [split, '!(%s)' % split]
     cs = fs.opts.get('quickcases') if tier == 'quick' and fs.opts.get('quickcases') else fs.opts.get('cases')
     b = [None] if not cs else [x.strip() for x in cs.split(';;')]
+    # case numbers identify the unit: the full `cases` list of a function that also has `quickcases` is numbered from
+    # 100 so that its units never share an id with the quick-tier units
+    base = 100 if (cs and fs.opts.get('quickcases') and cs == fs.opts.get('cases')) else 0
     out = []
     for x in a:
         for y in b:
             e = ' && '.join('(%s)' % z for z in (x, y) if z)
-            out.append((len(out), e) if e else None)
+            out.append((base + len(out), e) if e else None)
     return out
 
 
@@ -57,8 +61,11 @@ def units_for(prop, tier, gdir):
                 if fn.endswith('__ctor'):
                     continue
                 notes['functions'].append(fn)
-                for case in case_list(sp.funcs[fn], tier):
-                    units.append(engine.Unit(cn, fn, 2 if tier == 'quick' else 3, sp, infos[cn], gen, timeout=3600, sym=True, case=case, lockcov=True, rangelen=1 if tier == 'quick' else 2))
+                for case in case_list(sp.funcs[fn], 'quick'):
+                    units.append(engine.Unit(cn, fn, 2, sp, infos[cn], gen, timeout=3600, sym=True, case=case, lockcov=True, rangelen=1))
+                if tier == 'thorough' and cn in LIGHT:
+                    for case in case_list(sp.funcs[fn], tier):
+                        units.append(engine.Unit(cn, fn, 3, sp, infos[cn], gen, timeout=7200, sym=True, case=case, lockcov=True, rangelen=2))
         return units, notes
     if prop == 'C18':
         import rel
@@ -73,15 +80,20 @@ def units_for(prop, tier, gdir):
                     pf = rel.CONF[cn][0]
                     cases = [(0, '%s_ttl(&s1) > 0' % pf), (1, '!(%s_ttl(&s1) > 0)' % pf)]
                 # quick: the three heaviest containers compare ONE element for insert_range (the loop is uniform),
-                # lfuda at the default ratio; thorough: two elements, capacity <= 3, all ratios
+                # lfuda at the default ratio.  thorough: the quick units plus two elements for the heavy ones and
+                # capacity <= 3 for the light containers
                 heavy = cn in ('tlru_cache', 'utlru_cache', 'lfuda_cache') and op[0].startswith('insert')
-                rlen = 1 if (tier == 'quick' and heavy) else rel.RLEN
-                xa = 's1.m_dynamic_age_ratio == 0.5f' if (tier == 'quick' and cn == 'lfuda_cache') else None
+                xa = 's1.m_dynamic_age_ratio == 0.5f' if cn == 'lfuda_cache' else None
                 for case in cases:
                     # ut_map/ut_set have no capacity: MAXCAP bounds the stored entries, and the pre-state must be able to hold an
                     # (expired) entry besides the range's keys, so these run at MAXCAP 3 also in the quick tier
-                    mc = 3 if (tier != 'quick' or cn in ('ut_map', 'ut_set')) else 2
-                    units.append(rel.RelUnit(cn, op, mc, sp, infos[cn], gen, timeout=800 if tier == 'quick' else 7200, case=case, rlen=rlen, extra_assume=xa))
+                    mc = 3 if cn in ('ut_map', 'ut_set') else 2
+                    units.append(rel.RelUnit(cn, op, mc, sp, infos[cn], gen, timeout=800 if tier == 'quick' else 7200, case=case, rlen=1 if heavy else rel.RLEN, extra_assume=xa))
+                    if tier == 'thorough':
+                        if heavy:
+                            units.append(rel.RelUnit(cn, op, 2, sp, infos[cn], gen, timeout=7200, case=case, rlen=rel.RLEN, extra_assume=xa))
+                        elif cn in LIGHT and mc != 3:
+                            units.append(rel.RelUnit(cn, op, 3, sp, infos[cn], gen, timeout=7200, case=case, rlen=rel.RLEN, extra_assume=xa))
         return units, notes
     for cn, sp in specs.items():
         if prop not in sp.props:
@@ -97,10 +109,22 @@ def units_for(prop, tier, gdir):
         notes['containers'].append(cn)
         for fn in fns:
             notes['functions'].append(fn)
-            for mc in ([int(sp.funcs[fn].opts['quickcap'])] if tier == 'quick' and 'quickcap' in sp.funcs[fn].opts else caps):
-                to = int(sp.funcs[fn].opts.get('timeout', '1500' if tier == 'quick' else '7200'))
-                for case in case_list(sp.funcs[fn], tier):
-                    units.append(engine.Unit(cn, fn, mc, sp, infos[cn], gen, timeout=to, sym=cfg['sym'], case=case, rangelen=1 if tier == 'quick' else 2))
+            fo = sp.funcs[fn].opts
+            qcap = int(fo['quickcap']) if 'quickcap' in fo else 3
+            for case in case_list(sp.funcs[fn], 'quick'):
+                units.append(engine.Unit(cn, fn, qcap, sp, infos[cn], gen, timeout=int(fo.get('timeout', '1500')), sym=True, case=case, rangelen=1))
+            if tier == 'thorough':
+                # deeper: the light containers from the UNREDUCED pre-state at capacity <= 3 with ranges of two elements;
+                # tlru/utlru at capacity <= 3 also for the functions the quick tier runs at 2; lfuda all five ratios
+                if cn in LIGHT:
+                    for case in case_list(sp.funcs[fn], tier):
+                        units.append(engine.Unit(cn, fn, 3, sp, infos[cn], gen, timeout=7200, sym=False, case=case, rangelen=2))
+                elif cn in ('tlru_cache', 'utlru_cache') and qcap != 3 and 'SPEC_RANGE_LEN' not in ' '.join(c.expr for c in sp.funcs[fn].clauses):
+                    for case in case_list(sp.funcs[fn], tier):
+                        units.append(engine.Unit(cn, fn, 3, sp, infos[cn], gen, timeout=7200, sym=True, case=case, rangelen=1))
+                elif cn == 'lfuda_cache' and 'quickcases' in fo:
+                    for case in case_list(sp.funcs[fn], tier):
+                        units.append(engine.Unit(cn, fn, qcap, sp, infos[cn], gen, timeout=7200, sym=True, case=case, rangelen=1))
             if tier == 'thorough' and sp.funcs[fn].opts.get('modular') == 'yes':
                 units.append(engine.Unit(cn, fn, 2, sp, infos[cn], gen, timeout=3600, modular=True))
     # route U: unbounded-capacity units (cbmc --z3) for the containers that have them; the quick tier runs the
@@ -113,4 +137,5 @@ def units_for(prop, tier, gdir):
             if tier == 'thorough' or u.short in uroute.QUICK or cn in uroute.QUICK_ALL:
                 u.spec = specs[cn]
                 units.append(u)
+    units = list({u.id: u for u in units}.values())  # identical units (e.g. constructors) are planned once
     return units, notes
